@@ -288,6 +288,28 @@ class BandEnergies:
             out.append(np.linalg.eigvalsh((Hm + Hm.conj().T) / 2)[:nev] / at.Omega)
         return out
 
+    def _eigs_list(self, ks, Vloc_pot, e0, nev=6):
+        """All k-points in one list (equal weights): the eigenvalues of every entry equivalent to k (k, -k, k + G, -k - G) against e0, and the entry
+        Gamma against a separate Gamma-only calculation."""
+        from eminus import SCF, Atoms
+        from eminus.dft import H
+
+        at = Atoms(["Si", "H"], [[0.5, 0.6, 0.4], [2.9, 3.0, 3.3]], ecut=3, a=A_TRI)
+        at.s = [17, 17, 19]
+        at.set_k(list(ks), [1.0 / len(ks)] * len(ks))
+        scf = SCF(at, xc="lda,pw", verbose="critical")
+        at = scf.atoms
+        phi, vxc = Vloc_pot(at)
+        worst = 0.0
+        eg, _ = self._eigs(np.zeros(3), Vloc_pot)
+        for ik, kk in enumerate(ks):
+            W = [np.eye(len(at.Gk2c[j]), dtype=complex)[None, :, :] for j in range(len(ks))]
+            Hm = np.asarray(H(scf, ik, 0, W, dn_spin=None, phi=phi, vxc=vxc, vsigma=None, vtau=None))
+            e = np.linalg.eigvalsh((Hm + Hm.conj().T) / 2)[:nev] / at.Omega
+            ref = eg if not np.any(kk) else e0
+            worst = max(worst, float(np.abs(e - ref).max()))
+        return worst
+
     def _case(self, seed):
         _setup()
         rng = np.random.default_rng(seed)
@@ -313,7 +335,9 @@ class BandEnergies:
         # the same with ONE SCF object whose atoms are replaced by atoms at the other k-points (projectors and masks have to follow the k-point)
         r = self._eigs_reused(np.array([0.3, 0.2, -0.1]), [k, -k, k + b[0]], pot)
         d["reused_scf_object_k_minusk_kplusb1"] = float(max(np.abs(x - e0).max() for x in r))
-        return (max(d["k_plus_b1"], d["k_minus_b2_plus_b3"], d["minus_k"], d["k_plus_3b1_minus_2b3"], d["reused_scf_object_k_minusk_kplusb1"]),), dict(check="lowest 6 eigenvalues of the dense H (Si/H, GTH s/p projectors, triclinic cell, fixed real potential)", eigenvalues=e0.tolist(), **d)
+        # k and -k (and k + b1, Gamma) in ONE k-point list: every entry of the list has its own projectors and masks, whatever its partners in the list are
+        d["one_list_with_k_minusk_kplusb1_gamma"] = self._eigs_list([k, -k, k + b[0], np.zeros(3), -k - b[0]], pot, e0)
+        return (max(d["k_plus_b1"], d["k_minus_b2_plus_b3"], d["minus_k"], d["k_plus_3b1_minus_2b3"], d["reused_scf_object_k_minusk_kplusb1"], d["one_list_with_k_minusk_kplusb1_gamma"]),), dict(check="lowest 6 eigenvalues of the dense H (Si/H, GTH s/p projectors, triclinic cell, fixed real potential)", eigenvalues=e0.tolist(), **d)
 
     def __call__(self, ob, tier, seed):
         (worst,), info = self._case(seed)
@@ -476,6 +500,69 @@ class WeightSplit:
     def replay(self, wit):
         worst, info = native_weight_split(wit["seed"])
         return bool(worst > 1e-9), info
+
+
+class SupercellSmearedFillings:
+    """BOUNDED: smeared fillings of a k-mesh vs the equivalent supercell at Gamma: the supercell has ONE Fermi level for the union of the states of all
+    k-points, so Occupations.smear of the mesh object (Nk k-points, Nb bands, eigenvalues eps[k]) and of the supercell object (one k-point, Nk x Nb bands,
+    the same eigenvalues listed together, Nk times the electrons) give the same filling for every state, spin-paired and spin-polarised, metal-like spectra
+    (k-points hold different electron numbers)."""
+
+    def problems(self, seed):
+        from eminus import Atoms
+
+        _setup()
+        rng = np.random.default_rng(seed)
+        bad = []
+        worst = 0.0
+        for unres in (False, True):
+            for mesh in ((2, 2, 1), (3, 1, 1)):
+                nk = int(np.prod(mesh))
+                nb = 4
+                a = np.array([[5.0, 0.2, 0.0], [0.0, 5.5, 0.3], [0.1, 0.0, 6.0]])
+                prim = Atoms("Li", [[0.3, 0.2, 0.1]], ecut=1, a=a, unrestricted=unres)
+                prim.kpts.kmesh = list(mesh)
+                prim.occ.smearing = 0.03
+                prim.occ.bands = nb
+                prim.build()
+                A = a * np.array(mesh)[:, None]
+                cells = [(i, j, k) for i in range(mesh[0]) for j in range(mesh[1]) for k in range(mesh[2])]
+                pos = [np.array([0.3, 0.2, 0.1]) + np.array(c) @ a for c in cells]
+                sup = Atoms(["Li"] * nk, pos, ecut=1, a=A, unrestricted=unres)
+                sup.occ.smearing = 0.03
+                sup.occ.bands = nb * nk
+                sup.build()
+                ns = prim.occ.Nspin
+                if sup.occ.Nspin != ns or sup.occ.Nelec != nk * prim.occ.Nelec:
+                    raise RuntimeError("harness: the supercell object does not hold Nk times the electrons")
+                # metal-like spectrum: bands that cross the Fermi level differently at different k-points
+                eps = np.sort(rng.uniform(-0.2, 0.3, (nk, ns, nb)), axis=-1) + rng.uniform(-0.08, 0.08, (nk, 1, 1))
+                mu_k = prim.occ.smear(eps.copy())
+                eps_sc = np.transpose(eps, (1, 0, 2)).reshape(1, ns, nk * nb)
+                mu_s = sup.occ.smear(eps_sc.copy())
+                fk = np.asarray(prim.occ.f)
+                fs = np.asarray(sup.occ.f).reshape(ns, nk, nb).transpose(1, 0, 2)
+                d = float(np.abs(fk - fs).max())
+                worst = max(worst, d, abs(float(mu_k) - float(mu_s)))
+                if d > 1e-8 or abs(float(mu_k) - float(mu_s)) > 1e-8:
+                    bad.append(dict(mesh=list(mesh), spin_polarised=unres, largest_filling_difference=d, fermi_level_mesh=float(mu_k), fermi_level_supercell=float(mu_s),
+                                    electrons_per_kpoint_mesh=np.sum(fk, axis=(1, 2)).tolist(), electrons_per_kpoint_supercell=np.sum(fs, axis=(1, 2)).tolist()))
+        return bad, worst
+
+    def __call__(self, ob, tier, seed):
+        bad, worst = self.problems(seed)
+        if bad:
+            return Result(REFUTED, backend="native", witness=dict(seed=seed, first=bad[0]), replayed=True, replay_info=dict(failing=bad[:4]),
+                          detail=f"smeared fillings of the {bad[0]['mesh']} mesh differ from those of the equivalent supercell by {bad[0]['largest_filling_difference']:.2e} (electrons per k-point {bad[0]['electrons_per_kpoint_mesh']} vs {bad[0]['electrons_per_kpoint_supercell']})")
+        return Result(BOUNDED_OK, backend="native", detail=f"bounded: 2 meshes x 2 spin treatments, metal-like spectra: fillings and Fermi level of mesh and supercell agree to {worst:.1e}")
+
+    def replay(self, wit):
+        bad, _ = self.problems(wit["seed"])
+        return bool(bad), dict(failing=bad[:4])
+
+
+register(Obligation(name="C07.supercell.smeared_fillings_one_fermi_level", prop=PROP, engine="B", bounded=True, run=SupercellSmearedFillings(), functions=["eminus.occupations:Occupations.smear", "eminus.tools:get_Efermi"],
+                    doc="BOUNDED: with smearing the fillings of a k-mesh are those of the equivalent supercell at Gamma (one Fermi level for the states of all k-points)"))
 
 
 register(Obligation(name="C07.k_weights.split_equivalence_and_full_basis_Ekin", prop=PROP, engine="B", bounded=True, run=WeightSplit(),
